@@ -441,7 +441,11 @@ class YPPythonCodeGenerator:
         unset_break_code = self.l("doBreak = False")
         wrap_code = self.l("for _ in [1]:")
         self.indent()
-        code = self.generate_code_list(func.body)
+        body = list(func.body)
+        if body == []:
+            code = self.l("pass")
+        else:
+            code = self.generate_code_list(body)
         self.dedent()
         # break_code = self.generate_break_code() # level <= 1, not needed
         false_yield_code = self.generate_code_list( [ YPCodeIf(YPCodeExpr(False),[YPCodeYieldFalse()]) ])
